@@ -278,48 +278,9 @@ func c14Check(w *gen.World, c *refClosure, r *buildResult) (string, string) {
 			return fmt.Sprintf("dependency analysis of %s ran %d time(s) but no source in the closure maps to it", k, n), "find-outside-closure"
 		}
 	}
-	// bracket automaton per (family, key)
-	type st struct {
-		open, done bool
-	}
-	fam := map[string]map[string]*st{"dl": {}, "rv": {}, "rs": {}}
-	for _, e := range be.log {
-		parts := strings.SplitN(e.Kind, "-", 2)
-		if len(parts) != 2 || fam[parts[0]] == nil {
-			continue
-		}
-		s := fam[parts[0]][e.Key]
-		if s == nil {
-			s = &st{}
-			fam[parts[0]][e.Key] = s
-		}
-		switch parts[1] {
-		case "start":
-			if s.open || s.done {
-				return fmt.Sprintf("trace: second %s for %s", e.Kind, e.Key), "trace-bracket"
-			}
-			s.open = true
-		case "success", "failure":
-			if !s.open {
-				return fmt.Sprintf("trace: %s for %s without a preceding start", e.Kind, e.Key), "trace-bracket"
-			}
-			s.open = false
-			s.done = parts[1] == "success"
-			if parts[1] == "failure" {
-				return fmt.Sprintf("trace: %s for %s in a fault-free build", e.Kind, e.Key), "trace-failure"
-			}
-		case "already":
-			if !s.done || s.open {
-				return fmt.Sprintf("trace: %s for %s although that work has not completed earlier", e.Kind, e.Key), "trace-already-early"
-			}
-		}
-	}
-	for f, m := range fam {
-		for k, s := range m {
-			if s.open {
-				return fmt.Sprintf("trace: %s-start for %s was never followed by success or failure", f, k), "trace-bracket"
-			}
-		}
+	fam, bmsg, bfinding := c14Brackets(be.log, true)
+	if bmsg != "" {
+		return bmsg, bfinding
 	}
 	// every real operation must be bracketed by its trace events
 	for k := range count["fetch"] {
@@ -503,6 +464,108 @@ func bundleRun(which string, env *fw.Env, w *gen.World, emptyAllowedOK bool) fw.
 	return res
 }
 
+// c14St is the state of one (family, key) of trace events.
+type c14St struct {
+	open, done bool
+}
+
+// c14Brackets runs the per-key bracket automaton over the event log:
+// start -> (success | failure), "already" only after a success. In a build
+// with injected faults a failure event is legitimate and may be followed by
+// a fresh start for the same key (a retry); it never counts as completion.
+func c14Brackets(log []evt, faultFree bool) (map[string]map[string]*c14St, string, string) {
+	fam := map[string]map[string]*c14St{"dl": {}, "rv": {}, "rs": {}}
+	for _, e := range log {
+		parts := strings.SplitN(e.Kind, "-", 2)
+		if len(parts) != 2 || fam[parts[0]] == nil {
+			continue
+		}
+		s := fam[parts[0]][e.Key]
+		if s == nil {
+			s = &c14St{}
+			fam[parts[0]][e.Key] = s
+		}
+		switch parts[1] {
+		case "start":
+			if s.open || s.done {
+				return fam, fmt.Sprintf("trace: second %s for %s", e.Kind, e.Key), "trace-bracket"
+			}
+			s.open = true
+		case "success", "failure":
+			if !s.open {
+				return fam, fmt.Sprintf("trace: %s for %s without a preceding start", e.Kind, e.Key), "trace-bracket"
+			}
+			s.open = false
+			s.done = parts[1] == "success"
+			if parts[1] == "failure" && faultFree {
+				return fam, fmt.Sprintf("trace: %s for %s in a fault-free build", e.Kind, e.Key), "trace-failure"
+			}
+		case "already":
+			if !s.done || s.open {
+				return fam, fmt.Sprintf("trace: %s for %s although that work has not completed earlier", e.Kind, e.Key), "trace-already-early"
+			}
+		}
+	}
+	for f, m := range fam {
+		for k, s := range m {
+			if s.open {
+				return fam, fmt.Sprintf("trace: %s-start for %s was never followed by success or failure", f, k), "trace-bracket"
+			}
+		}
+	}
+	return fam, "", ""
+}
+
+// c14Faulted: the trace clauses of the property also bind a build in which a
+// callback fails: every start is answered by exactly one success or failure,
+// and "already" is never reported for work that failed. Every fetch and
+// registry call position of a generated world is failed in turn.
+func c14Faulted(env *fw.Env, idx int) fw.Result {
+	r := env.Rand(idx)
+	w := gen.RandomWorld(r, gen.WorldOpts{MaxPkgs: 4, MaxReg: 2, MaxFinders: 2, MaxAdds: 3, Aliases: r.Chance(1, 3)})
+	// make it likely that one registry package is reached more than once
+	if len(w.Registry) > 0 && len(w.Remotes) > 0 {
+		for k, ds := range w.Remotes[0].Deps {
+			ds = append(ds, gen.Dep{Kind: "registry", Reg: 0, RegSub: "mod"}, gen.Dep{Kind: "registry", Reg: 0, Finder: 1})
+			w.Remotes[0].Deps[k] = ds
+		}
+	}
+	c := computeClosure(&w)
+	res := fw.Result{Hash: fw.HashString("c14f" + worldKey(&w)), Case: worldDesc(&w), Class: "faulted-trace"}
+	if c.Problem != "" {
+		res.Class = "not-fault-free"
+		return res
+	}
+	dir := filepath.Join(env.Scratch, "c14f", "bundle")
+	base := runBuild(&w, dir, buildOpts{})
+	if base.NewErr != nil || base.hasErrors() {
+		res.Class = "baseline-failed"
+		return res
+	}
+	n := base.be.calls
+	kinds := append([]string{}, base.be.kinds...)
+	res.Obs = map[string]int64{}
+	for i := 1; i <= n; i++ {
+		if kinds[i-1] == "find" {
+			continue
+		}
+		br := runBuild(&w, dir, buildOpts{Faults: []fault{{At: i, Mode: "error"}}})
+		if br.NewErr != nil || len(br.be.faulted) == 0 {
+			continue
+		}
+		res.Evals++
+		res.NonTrivial = true
+		res.Obs["faulted_builds"]++
+		res.Obs["events_recorded"] += int64(len(br.be.log))
+		if _, msg, finding := c14Brackets(br.be.log, false); msg != "" {
+			res.Verdict, res.Finding = fw.Violated, finding+"-under-fault"
+			res.Msg = fmt.Sprintf("callback %d (%s) failed: %s", i, kinds[i-1], msg)
+			return res
+		}
+	}
+	return res
+}
+
 // c14Hang: for C14 a build that never returns is a violation ("always terminates").
 func c14Hang(kind, detail string, idx int) (fw.Verdict, string, string) {
 	if kind == "hang" {
@@ -569,6 +632,10 @@ func init() {
 		Name: "concurrent-adds-exactly-once", Race: true, Shards: 16,
 		N:   fw.Fixed(64, 2000),
 		Run: c13Concurrent,
+	}, &fw.Phase{
+		Name: "trace-brackets-when-a-callback-fails",
+		N:    fw.Fixed(600, 6000),
+		Run:  c14Faulted,
 	})
 	fw.Register(&fw.Property{
 		ID:    "C14",
